@@ -100,7 +100,7 @@ def rule_pure(ctx):
                 if not over and not any(k_.startswith("overwrite") for k_ in kws):
                     raise AnalysisError("%s: module-level re-definition %s of the inverse not understood" % (rel, norm(st)[:80]))
                 ctx.ob("%s.inv" % rel.split("/")[-1], not over, "%s" % norm(st)[:120], "the inverse leaves its argument alone (no overwrite_a=True): the covariance matrices are the caller's",
-                       node=st, func=None, witness=None if not over else {"S_y": "np.asfortranarray(...)", "after the call": "overwritten with its LU factors / inverse"})
+                       node=st, func=next(iter(mod.funcs.values())), witness=None if not over else {"S_y": "np.asfortranarray(...)", "after the call": "overwritten with its LU factors / inverse"})
     bad = []
     node0 = None
     for rel in (COMMON, ERROR):
